@@ -143,6 +143,7 @@ static struct nv_prow nv_params_row(const struct nv_params* p, int64_t i)
 /* the user callback: returns one value per row (its contract, assumed); values are arbitrary doubles */
 static struct nv_values nv_callback(const struct nv_params* p)
 {
+  __CPROVER_assert(p->rows >= 1, "the callback is never asked to evaluate an empty batch (precondition of result_t::add in ml::tune)");
   struct nv_values r; r.n = p->rows; r.posG = p->posG; r.vG = nv_nondet_double(); r.bad = nv_nondet_int64_t();
   __CPROVER_assume(-1 <= r.bad && r.bad < r.n);
   if (r.posG >= 0) __CPROVER_assume((r.bad >= 0 && r.bad <= r.posG) ? (r.bad < r.posG || !NV_ISFIN(r.vG)) : NV_ISFIN(r.vG));
